@@ -90,6 +90,9 @@ def run(res, tier, seed):
         "the documentation does not mention repeated names in the search list: the list is judged without repeats (first "
         "position counts) and the failure shown may be that of the last name with or without repeats",
         "where a candidate was asked for two families and both failed, either failure may be shown",
+        "the documentation does not say how the hosts table and the search list interact: consulting the table for every "
+        "candidate in turn (what lookup_ip does) and consulting it for the name as typed before anything else (what the C "
+        "library does) are both accepted",
         "lookup_ip of an address literal is judged for ndots <= 4 only; relative localhost / invalid names are only looked "
         "up through address lookups; SERVFAIL, REFUSED, connection reset and timeout all count as `fail`",
         "hosts table installed with Resolver::set_hosts from text read by Hosts::read_hosts_conf; the system file "
@@ -144,7 +147,7 @@ def run(res, tier, seed):
     stats = {"ok": 0, "err": 0, "local_only": 0, "fallback_family": 0, "later_candidate_won": 0, "agree": 0}
     for gname, cfgs, outcomes, fks in gens:
         tla, _ = vlib.wrapper(wd, gname, "Gen_Stub, MC_Stub", {}, [])
-        cfg = write_cfg(wd, gname, cfgs=cfgs, outcomes=outcomes, rules="Strict", tail="INVARIANT Emit")
+        cfg = write_cfg(wd, gname, cfgs=cfgs, outcomes=outcomes, rules="Strict", tail="INVARIANT Emit\nACTION_CONSTRAINT PerCandidateReading")
         cases, st = vlib.gen(tla, cfg, wd, workers=W, timeout=1500)
         res.states += st["distinct"]
         res.transitions += st["generated"]
